@@ -2,9 +2,25 @@
 import base64, hashlib, itertools, os
 from vlib import common as C, coapgen as G, wsgen as W
 
+MANIFEST = {
+    "text": "Lean theorems about the transcription M of the TCP/TLS branch of coap_read_session: reader_eq_spec (for every list of "
+            "chunks the messages reaching coap_dispatch, their order, whether the session is closed and the reader's final state equal "
+            "what the RFC 8323/8974 framing specification S computes from the concatenated bytes), hence reader_segmentation_invariant / "
+            "reader_cut_invariant for all streams and all cut placements, oversize_closes, no_message_stuck, reader_no_oob. WebSocket: "
+            "specification S_ws and model M_ws of coap_ws_rd_http_header / coap_ws_read / the WS loop of coap_read_session; proved only "
+            "in part (first handshake line under every segmentation, long-line and oversize closing clauses); the full WS correspondence "
+            "rests on differential runs I = M_ws = S_ws (exhaustive 1-3 cut placements on short streams, one byte per read, cuts at "
+            "every header byte). Nine defects found on the way are fixed in /repo (1 TCP, 8 WebSocket).",
+    "note": "Trusted: Lean kernel (+ propext, Classical.choice, Quot.sound), harness/stream.c (chunk feeder replacing the socket layer, "
+            "dispatch hook 2de516c), generators, the hand transcriptions M / M_ws (checked against the compiled code on the cases run "
+            "only). PARTIAL for WebSocket: ws_reader_eq_spec is not proved; theorems ending in _partial state exactly what is.",
+    "design_ref": "DESIGN.md §4 C05, design/C05.md",
+}
 LEAN_MODULES = ["CoapVerif.Props.C05"]
 NAMESPACE = "Coap.C05"
-REQUIRED_THEOREMS = ["reader_eq_spec", "reader_segmentation_invariant", "oversize_closes", "no_message_stuck", "reader_no_oob"]
+REQUIRED_THEOREMS = ["reader_eq_spec", "reader_segmentation_invariant", "reader_cut_invariant", "oversize_closes", "no_message_stuck",
+                     "reader_no_oob", "spec_delivers_complete_frame", "ws_long_line_closes",
+                     "ws_first_line_segmentation_invariant_partial", "ws_first_line_eq_spec_partial"]
 RULE = ("(byte stream, segmentation) pairs replayed into the real coap_read_session of a TCP / WebSocket session whose lowest "
         "layer is a chunk feeder: streams = 1-6 encoded messages (all four TCP length forms, tokens 0..extended, a share of "
         "field-mutated frames, oversize declared lengths, small configured maxima; WS: handshake + masked/unmasked frames with "
@@ -13,19 +29,25 @@ RULE = ("(byte stream, segmentation) pairs replayed into the real coap_read_sess
         "least one message or closes the session")
 TRUSTED_BASE = ["Lean 4.33 kernel; axioms allowed: propext, Classical.choice, Quot.sound (audited per theorem each run)",
                 "harness/stream.c (chunk feeder in place of the socket layer, dispatch hook, stack scribbling) + generators + string comparison",
-                "M (CoapVerif/Model/StreamReader.lean) is a hand transcription of the TCP branch of coap_read_session; checked "
-                "against the compiled code only on the cases run",
+                "M (CoapVerif/Model/StreamReader.lean) and M_ws (Model/WsReader.lean) are hand transcriptions of the TCP / WebSocket "
+                "readers; checked against the compiled code only on the cases run",
+                "WebSocket: SHA-1/base64 of the accept hash and base64 decoding of the key are oracles; coap_ws_close's draining is "
+                "exercised by the harness but not modelled",
                 "source hook coap_verif_dispatch_hook (guarded by COAP_VERIF_HOOKS) reports the PDUs entering coap_dispatch"]
 ASSUMPTIONS = ["the transport returns the bytes of the stream in order, in arbitrary non-empty pieces, and never an error (a read "
                "error / EOF closes the session by design)",
                "malloc succeeds (allocation failure is C18)",
                "0 < coap_session_max_pdu_rcv_size(session) <= COAP_DEFAULT_MAX_PDU_RX_SIZE - 6 (true for every csm_max_message_size >= 64 "
                "that coap_context_set_csm_max_message_size accepts)",
+               "the event loop is level-triggered: coap_read_session is called again while bytes are available",
+               "WebSocket handshake lines contain no NUL byte; which header lines are acceptable is a parameter of S (D17)",
                "compiled Lean definitions agree with the kernel's reading of them"]
 SPEC_DECISIONS = ["D13 declared length = Len + token field, compared with coap_session_max_pdu_rcv_size",
                   "D14 reserved TKL 15: token field taken as empty, frame dropped, stream continues",
                   "D15 a complete frame that does not decode is dropped, the stream continues",
-                  "D16 WS: one CoAP message per FIN binary frame"]
+                  "D16 WS: one CoAP message per binary frame, FIN/RSV ignored, other opcodes close",
+                  "D17 acceptance of upgrade header lines is a parameter of S", "D18 over-long line: more than 158 bytes before LF",
+                  "D19 frame above 1472 bytes closes; empty frame carries no message"]
 RUN_KW = {}
 
 
@@ -151,6 +173,40 @@ def segmentations(rng, stream, exhaustive_upto, budget):
     return segs
 
 
+def tcp_frame_declaring(rng, declared, tkl_bytes, complete=True):
+    """a frame whose header declares exactly `declared` bytes after the Code byte (token field included)"""
+    tok = G.rbytes(rng, tkl_bytes)
+    n = declared - len(tok)
+    assert n >= 0
+    if n < 13: h = bytes([n << 4 | len(tok)])
+    elif n < 269: h = bytes([13 << 4 | len(tok), n - 13])
+    elif n < 65805: h = bytes([14 << 4 | len(tok), (n - 269) >> 8, (n - 269) & 255])
+    else:
+        m = n - 65805
+        h = bytes([15 << 4 | len(tok), m >> 24 & 255, m >> 16 & 255, m >> 8 & 255, m & 255])
+    body = (b"\xff" + G.rbytes(rng, n - 1)) if n >= 2 else bytes([0x00] * n)   # payload marker + payload / a zero-length option
+    f = h + bytes([1]) + tok + body
+    return f if complete else f[:len(h) + 1 + len(tok) + min(n, 5)]
+
+
+def gen_tcp_cap_boundary(ctx):
+    """declared lengths on both sides of the configured maximum, for every size class of the maximum"""
+    rng = ctx.rng
+    out = []
+    for csm in (64, 100, 271, 272, 1152, 65808, 65809):
+        mr = max_rcv(csm)
+        for d in (mr - 1, mr, mr + 1, mr + 2):
+            for tkl in (0, 4):
+                f = tcp_frame_declaring(rng, d, tkl)
+                stream = tcp_msg(rng, 0) + f + tcp_msg(rng, 0)
+                n = len(stream)
+                first = len(stream) - len(f) - 0
+                hb = [c for c in header_boundaries(stream) if c < n][:12]
+                for cs in ([], hb, [c for c in range(1, min(n, 40))], seg_random(rng, n)):
+                    out.append(tcp_line(csm, stream, cs))
+    return out
+
+
 def gen_tcp(ctx, n_streams, exhaustive_upto, n_exh):
     rng = ctx.rng
     out = []
@@ -246,11 +302,16 @@ def ws_handshake(rng, mode):
         h = W.handshake(mode, rng, 0)
         return h[:rng.randrange(len(h))], "trunc"
     ls = W._lines(mode)
-    k = rng.randrange(4)
-    if k == 0: ls[0] = ls[0].replace("1.1", "1.0")
+    k = rng.randrange(5)
+    if k == 4:      # first line without any separator (client: the status line is just "HTTP/1.1")
+        ls[0] = ls[0].split(" ")[0]
+    elif k == 0: ls[0] = ls[0].replace("1.1", "1.0")
     elif k == 1: del ls[rng.randrange(1, len(ls))]
     elif k == 2: ls.insert(rng.randrange(1, len(ls) + 1), ls[rng.randrange(1, len(ls))])
-    else: ls[rng.randrange(1, len(ls))] += "x"
+    else:
+        # not the key line: base64 decoding of the key is an oracle of the model (only well-formed keys are generated)
+        idx = [i for i in range(1, len(ls)) if not ls[i].startswith("Sec-WebSocket-Key")]
+        ls[rng.choice(idx)] += "x"
     return ("\r\n".join(ls) + "\r\n\r\n").encode(), "bad"
 
 
@@ -334,7 +395,7 @@ def generate(ctx, escalate=False):
         lines += gen_tcp(ctx, 1500, 22, 8) + gen_ws(ctx, 600, 12, 10)
     ctx.cov["exhaustive"] = ("every 1-, 2- and 3-cut placement of %d TCP streams and of the frame part of %d WS streams"
                              % (ctx.cov.get("exhaustive_streams", 0), ctx.cov.get("ws_exhaustive_streams", 0)))
-    return ["consts"] + lines
+    return ["consts"] + gen_tcp_cap_boundary(ctx) + lines
 
 
 # ---------------------------------------------------------------------------------------------
